@@ -136,7 +136,18 @@ static inline std::string gen_doc(Rng & r, const DocOpts & o) {
 					break;
 				}
 			// fallthrough
-			case 9: if (o.tables) { d += "| a | b | c |\n| :-- | :-: | --: |\n| " + gen_words(r, 1) + " | " + gen_words(r, 1) + " || \n| x | y | z |\n" + (r.chance(1, 2) ? "[Caption " + std::to_string(b) + "]\n" : "") + "\n"; break; }
+			case 9: if (o.tables) {
+				if (r.chance(1, 3)) {
+					// ragged tables: a separator line with fewer (or more) columns than the rows, varying alignments
+					static const char * al[] = {":--", "--:", ":-:", "---"};
+					int ncol = (int)r.range(1, 4), nrow = (int)r.range(1, 3);
+					d += "|"; for (int c = 0; c < ncol; c++) d += " h" + std::to_string(c) + " |"; d += "\n|";
+					for (int c = 0; c < ncol; c++) d += std::string(" ") + al[r.below(4)] + " |"; d += "\n";
+					for (int rw = 0; rw < nrow; rw++) { int nc = (int)r.range(1, 6); d += "|"; for (int c = 0; c < nc; c++) d += " " + gen_words(r, 1) + " |"; d += "\n"; }
+					d += "\n";
+					break;
+				}
+				d += "| a | b | c |\n| :-- | :-: | --: |\n| " + gen_words(r, 1) + " | " + gen_words(r, 1) + " || \n| x | y | z |\n" + (r.chance(1, 2) ? "[Caption " + std::to_string(b) + "]\n" : "") + "\n"; break; }
 			// fallthrough
 			case 10: d += "Term " + std::to_string(b) + "\n: Definition " + gen_words(r, 3) + "\n: Second def\n\n"; break;
 			case 11: if (o.critic) { d += "Critic {++add++} {--del--} {~~old~>new~~} {==hi==}{>>comment<<} " + gen_words(r, 1) + "\n\n"; break; }
